@@ -32,10 +32,10 @@ enum Extra : int {
     X_RANKDEP,    // add_rank_dependency(node rd_node, depends_on rd_on), acyclic
     X_NESTED,     // child graph {A = add1(p); B = add2(A, q)} behind single_nested_graph_node, C = add1(nested out)
     X_REF,        // R = ref_copy(p) (REF in, REF out), C = add1(R)                 (C reads p through the reference)
-    X_RANKDEP2,   // two rank dependencies
-    X_COUNT_EVAL,  // extras usable when the graph is run
-    X_PUSH = X_COUNT_EVAL,  // a push source declared last (must be ranked into the prefix)   [static only]
-    X_RANKFREE,             // a 2-input node whose second input is declared rank_dependency=false [static only]
+    X_COUNT_EVAL,  // extras used when the graph is run (C01_eval); the ones below are static only (C01_rank)
+    X_RANKDEP2 = X_COUNT_EVAL,  // two rank dependencies (any direction, possibly cyclic)
+    X_PUSH,       // a push source declared last (must be ranked into the prefix)
+    X_RANKFREE,   // a 2-input node whose second input is declared rank_dependency=false, its source ranked after it
     X_COUNT_ALL
 };
 
@@ -104,7 +104,10 @@ inline void choose_base(Prog &p) {
         if (p.in1[i] >= 0) p.reads[i][p.in1[i]] = true;
     }
     p.nuser = p.n;
-    p.via_tsl = verif_bool("via_tsl");
+}
+inline bool has_add2(const Prog &p) {
+    for (int i = 1; i < p.n; i++) if (p.kind[i] == K_ADD2) return true;
+    return p.extra == X_NESTED;
 }
 
 // ---- node vocabulary.  Every node logs (id, value) through on_eval when its user code runs.
@@ -222,7 +225,8 @@ inline void add_rd(Prog &p, int node, int on) {
     p.rankafter[node][on] = true;
 }
 
-inline void choose_extra(Prog &p, int nextras) {
+// reorder_only: keep only rank dependencies that contradict statement order (an earlier statement must follow a later one)
+inline void choose_extra(Prog &p, int nextras, bool reorder_only) {
     p.extra = verif_choice("extra", nextras);
     const int n = p.n;
     switch (p.extra) {
@@ -238,6 +242,7 @@ inline void choose_extra(Prog &p, int nextras) {
             for (int r = 0; r < k; r++) {
                 int a = verif_choice("rd_node", n), b = verif_choice("rd_on", n);
                 if (r == 1) verif_assume(a != p.rd[0][0] || b != p.rd[0][1]);
+                if (reorder_only) verif_assume(a < b);
                 add_rd(p, a, b);
             }
             break;
@@ -271,6 +276,7 @@ inline void choose_extra(Prog &p, int nextras) {
         }
         default: break;
     }
+    if (has_add2(p)) p.via_tsl = verif_bool("via_tsl");
 }
 
 inline void wire_extra(Wiring &w, const Prog &p, Built &b) {
